@@ -3,7 +3,7 @@ C12 composition, the vocabulary: every token the renderer model writes for a fra
 capability set Vaxis detects inside the emulator (no direct colour, no styled underlines, no
 explicit width, no synchronized output) is one the simulation covers (`C12Sim.TokOk`): CUP, an SGR
 sequence inside the C06 vocabulary and well formed (`SgrOk`: `CSI m`, one plain code other than
-6 / 21 / 38 / 48 / 58, or `38:5:i` / `48:5:i` with i ≤ 255), OSC 8 whose parameter string has no `;`,
+6 / 21 / 38 / 48 / 58, or `38:5:i` / `48:5:i` with i ≤ 255), OSC 8 whose parameter string has no `;` (since the F112b repair the renderer writes `lpField`, which has none under `LpOk dec`),
 a grapheme of width ≤ 2 with non-empty bytes, mode 25, DECSCUSR with a value ≤ 65535, OSC 22.
 Same induction over the cell loop as `Lemmas/RenderGate.lean`.
 -/
